@@ -17,7 +17,7 @@ type Step struct {
 	Proc   string `json:"p,omitempty"`
 }
 
-var reAction = regexp.MustCompile(`^\\\* <(\w+)(?:\((\w+)\))? line`)
+var reAction = regexp.MustCompile(`^\\\* <(\w+)(?:\(([^)]*)\))? line`)
 
 // ParseBehaviour reads a file written by `tlc -simulate file=...` (or a TLC
 // counterexample in the same comment format) and returns the action sequence.
